@@ -3,7 +3,11 @@
 package checks
 
 import (
+	"fmt"
 	"io"
+	"os"
+	"os/exec"
+	"strings"
 	"log/slog"
 	"sort"
 	"time"
@@ -17,6 +21,32 @@ type Ctx struct {
 	Thorough bool
 	// Filter, when non-empty, restricts Run to the unit with that name (replay).
 	Filter string
+	// Isolated is set in the sub-process that runs one memory-dangerous case.
+	Isolated bool
+}
+
+// RunIsolated re-executes this worker binary for one directly enumerated unit
+// under a small address-space limit. It returns what happened:
+// "ok", "finding: ...", or "crash: <last lines>" (fatal error / OOM / signal).
+func RunIsolated(prop, unit string, limit uint64) string {
+	exe, err := os.Executable()
+	if err != nil {
+		return "crash: " + err.Error()
+	}
+	cmd := exec.Command(exe, "-prop", prop, "-unit", unit, "-rlimit-as", fmt.Sprint(limit))
+	cmd.Env = append(os.Environ(), "GOMAXPROCS=1", "GOTRACEBACK=single")
+	out, err := cmd.CombinedOutput()
+	if err == nil {
+		return "ok"
+	}
+	if ee, ok := err.(*exec.ExitError); ok && ee.ExitCode() == 3 {
+		return "finding: " + strings.TrimSpace(string(out))
+	}
+	s := string(out)
+	if len(s) > 600 {
+		s = s[:600]
+	}
+	return "crash: " + err.Error() + ": " + s
 }
 
 // Prop describes one property check.
@@ -32,6 +62,18 @@ type Prop struct {
 	Units func(thorough bool) []*explore.Unit
 	// Direct runs directly enumerated cases (no scheduler); may be nil.
 	Direct func(c *Ctx)
+}
+
+// UnitsByName finds explorer units by exact name in either tier.
+func (p *Prop) UnitsByName(name string) []*explore.Unit {
+	for _, th := range []bool{true, false} {
+		for _, u := range p.Units(th) {
+			if u.Name == name {
+				return []*explore.Unit{u}
+			}
+		}
+	}
+	return nil
 }
 
 var registry = map[string]*Prop{}
@@ -52,3 +94,6 @@ func IDs() []string {
 }
 
 var quietLogger = slog.New(slog.NewTextHandler(io.Discard, nil))
+
+// SetIsolatedChild marks this process as the sub-process of RunIsolated.
+func SetIsolatedChild() { isolatedChild = true }
